@@ -164,6 +164,9 @@ def run(check, ctx):
     # the native OCB tag (and plaintext recovered on decryption) over a concrete bijection
     from . import c_ocb
     c_ocb.ocb_tables(check, ctx, groups=("crypt",))
+    # GHASH (the tag of GCM) in both native implementations
+    from . import c_ghash
+    c_ghash.ghash_tables(check, ctx)
     check.undecided.append("equality of the expected tag with the mode's "
                            "specification for every input (GHASH, CBC-MAC, "
                            "OMAC, S2V, OCB arithmetic; Poly1305 beyond the boundary table)")
